@@ -189,6 +189,8 @@ class Runner:
         else:
             raise ValueError(a)
         for vc in w.conns:
+            if vc.dir == "out" and not hasattr(vc, "dialled"):
+                vc.dialled = self._dial_peer(vc.sock.fd)
             if vc.c and vc.c not in self.vcs:
                 self.vcs[vc.c] = vc
             elif not vc.c:
@@ -272,7 +274,13 @@ class Gen:
             po = w.peers[p["name"]]
             if po.connection is not None and w.c_of(po.connection) == vc.c:
                 host = p["host"]
-        claimed = host if (host and rng.random() < 0.85) else rng.choice(self.hosts)
+        # identity used in Origin-Host: the peer this connection belongs to; otherwise (rarely) an unknown host.
+        # An outbound connection never claims to be a *different configured* peer (excluded input class, see DESIGN).
+        dialled = getattr(vc, "dialled", None)
+        if dialled:
+            claimed = dialled if rng.random() < 0.9 else "x.r9"
+        else:
+            claimed = host if (host and rng.random() < 0.85) else rng.choice(self.hosts)
         kinds = ["cer", "cea", "dwr", "dwa", "dpr", "dpa", "req", "ans", "ureq", "uans"]
         kind = rng.choices(kinds, weights=self.focus.get("weights", [2, 2, 2, 2, 1, 1, 6, 2, 1, 1]))[0]
         # steer towards completing the capabilities exchange properly most of the time
@@ -283,10 +291,20 @@ class Gen:
                 busy = {h for h in known if w.peers[w.host2peer[h]].connection is not None}
                 cand = [h for h in known if h not in busy] or known
                 good = rng.random() < 0.8
+                if getattr(vc, "cer_sent", False) and not self.focus.get("multi_cer"):
+                    return M("DW", True, hbh, e2e, oh=rng.choice(known))
+                vc.cer_sent = True
                 return M("CE", True, hbh, e2e, oh=rng.choice(cand) if rng.random() < 0.9 else rng.choice(known),
                          auth=[4, 3] if good else rng.choice([[], [77]]), acct=[3] if good else [], relay=rng.random() < 0.05)
             kind = "cea"
+        # each connection carries at most one CER (RFC 6733 5.3); after a successful exchange no further CE
+        # messages are sent unless the profile asks for them (C06 leaves that behaviour unspecified)
+        if kind in ("cer", "cea") and not self.focus.get("ce_after_success") and st not in ("CONNECTED", ""):
+            kind = rng.choice(["dwr", "req", "dwa"])
+        if kind == "cer" and (getattr(vc, "cer_sent", False) or vc.dir == "out") and not self.focus.get("multi_cer"):
+            kind = rng.choice(["dwr", "req"])
         if kind == "cer":
+            vc.cer_sent = True
             auth = rng.choice([[4], [4], [3], [4, 3], [], [77]])
             return M("CE", True, hbh, e2e, oh=claimed if rng.random() < 0.95 else "", auth=auth, acct=rng.choice([[], [], [3]]),
                      relay=rng.random() < 0.1)
@@ -355,7 +373,10 @@ class Gen:
             name, req = self.r.held.pop(rng.randrange(len(self.r.held)))
             from .world import abs_from_msg
             am = abs_from_msg(req)
-            ans = M("APP", False, am["hbh"], am["e2e"], app=am["app"], oh=NODE_HOST, rc=2001, typed=am["code"] == 272, code=am["code"])
+            typed = am["code"] == 272
+            # (answers of commands without a python class carry no AVPs on the wire)
+            ans = M("APP", False, am["hbh"], am["e2e"], app=am["app"], oh=NODE_HOST if typed else "", rc=2001 if typed else 0,
+                    typed=typed, code=am["code"])
             return {"a": "submit", "app": name, "m": ans, "_req": req}
         if a == "plan":
             return {"a": "plan", "plan": [rng.choice(["ok", "inprogress", "inprogress", "fail"]) for _ in range(rng.randint(1, 3))]}
@@ -404,4 +425,26 @@ def conf_batch(params, traces, tag, timeout=1800):
     r = tlc.run("Conf_Node", cfg, tag, workers=1, env={"PARAMS": pp, "TRACES": tp, "OUT": outp}, timeout=timeout, heap="4g")
     if not os.path.exists(outp):
         raise tlc.TlcError("Conf_Node produced no output:\n" + r["out"][-4000:])
+    return json.load(open(outp))
+
+
+def mon_batch(params, traces, tag, timeout=1800):
+    """Evaluate the property monitors (spec/Mon_*.tla via MonEval) on traces of one configuration.
+    -> list (per trace) of {monitor: [ {sig, at} ... ]}"""
+    import json
+    import os
+    from . import tlc
+    d = os.path.join(tlc.OUT, tag + "_in")
+    os.makedirs(d, exist_ok=True)
+    pp = os.path.join(d, "params.json")
+    tp = os.path.join(d, "traces.json")
+    json.dump(params, open(pp, "w"))
+    json.dump(traces, open(tp, "w"))
+    outp = os.path.join(d, "out.json")
+    if os.path.exists(outp):
+        os.remove(outp)
+    cfg = "INIT EvInit\nNEXT EvNext\nCHECK_DEADLOCK FALSE\n"
+    r = tlc.run("MonEval", cfg, tag, workers=1, env={"PARAMS": pp, "TRACES": tp, "OUT": outp}, timeout=timeout, heap="4g")
+    if not os.path.exists(outp):
+        raise tlc.TlcError("MonEval produced no output:\n" + r["out"][-4000:])
     return json.load(open(outp))
